@@ -24,7 +24,7 @@ Traces == JsonDeserialize(IOEnv.TRACE_FILE)
 
 VARIABLES tid, l,
           mref, mhasref, mlastok, macc, mid, mflags,                       \* monitor: blocks
-          mlisten, mconn, msamples, myields, mdisc, mstopped, mearly, mdrained,   \* monitor: SyncLogger
+          mlisten, mconn, msamples, mlsamples, myields, mdisc, mstopped, mearly, mdrained,   \* monitor: SyncLogger
           bad, badAt, cok, cokAt,
           toc, conf, phase, cur, tpl, lvars, ldef, valid, cid, hascf, added, started, pending, blocks,
           idctr, link, dev, acks, inject, sync, nops, nfaults, ndata, ref, hasref, lastok, obs
@@ -44,7 +44,7 @@ Cs == 1..2
 T == Traces[tid]
 Ev == T.ev[l]
 
-monvars == <<mref, mhasref, mlastok, macc, mid, mflags, mlisten, mconn, msamples, myields, mdisc, mstopped,
+monvars == <<mref, mhasref, mlastok, macc, mid, mflags, mlisten, mconn, msamples, mlsamples, myields, mdisc, mstopped,
              mearly, mdrained>>
 specvars == <<toc, conf, phase, cur, tpl, lvars, ldef, valid, cid, hascf, added, started, pending, blocks,
               idctr, link, dev, acks, inject, sync, nops, nfaults, ndata, ref, hasref, lastok, obs>>
@@ -55,7 +55,7 @@ Init == /\ tid \in 1..Len(Traces) /\ l = 1
         /\ mref = [c \in Cs |-> <<>>] /\ mhasref = [c \in Cs |-> FALSE]
         /\ mlastok = [c \in Cs |-> FALSE] /\ macc = [c \in Cs |-> FALSE] /\ mid = [c \in Cs |-> 0]
         /\ mflags = [c \in Cs |-> [added |-> FALSE, started |-> FALSE]]
-        /\ mlisten = FALSE /\ mconn = FALSE /\ msamples = <<>> /\ myields = <<>> /\ mdisc = FALSE /\ mstopped = FALSE
+        /\ mlisten = FALSE /\ mconn = FALSE /\ msamples = <<>> /\ mlsamples = <<>> /\ myields = <<>> /\ mdisc = FALSE /\ mstopped = FALSE
         /\ mearly = FALSE /\ mdrained = FALSE
         /\ bad = "ok" /\ badAt = 0 /\ cok = TRUE /\ cokAt = 0
         /\ toc = Traces[tid].toc
@@ -108,7 +108,7 @@ MAdd ==
           /\ macc' = IF ok THEN [macc EXCEPT ![c] = TRUE] ELSE macc
           /\ mid' = IF ok THEN [mid EXCEPT ![c] = Ev.id] ELSE mid
           /\ mflags' = Ev.after
-          /\ UNCHANGED <<mlisten, mconn, msamples, myields, mdisc, mstopped, mearly, mdrained>>
+          /\ UNCHANGED <<mlisten, mconn, msamples, mlsamples, myields, mdisc, mstopped, mearly, mdrained>>
           /\ Conform(/\ IF Ev.via = "sync" THEN D!SyncConnect1 ELSE D!AddConfig(c)
                      /\ obs'.res = Ev.res
                      /\ P!Keys(lvars'[c]) = P!Keys(Ev.vars) /\ ldef'[c] = Ev.ldef
@@ -124,7 +124,7 @@ MOp ==
                   ELSE IF Ev.e = "start" /\ mlastok[c] /\ ~Ev.before[c].added /\ k # "ok" THEN k
                   ELSE Quiet)
           /\ mflags' = Ev.after
-          /\ UNCHANGED <<mref, mhasref, mlastok, macc, mid, mlisten, mconn, msamples, myields, mdisc, mstopped,
+          /\ UNCHANGED <<mref, mhasref, mlastok, macc, mid, mlisten, mconn, msamples, mlsamples, myields, mdisc, mstopped,
                          mearly, mdrained>>
           /\ Conform(/\ CASE Ev.e = "start" -> (IF Ev.via = "sync" THEN D!SyncConnect2 ELSE D!Start(c))
                           [] Ev.e = "stop" -> D!Stop(c)
@@ -141,7 +141,7 @@ MAck ==
             ELSE FirstBad([c \in Cs |-> P!AckClause(Ev.cmd, Ev.st_ack, macc[c] /\ mid[c] = Ev.id,
                                                     Ev.before[c], Ev.after[c], CbsOf(c))]))
     /\ mflags' = Ev.after
-    /\ UNCHANGED <<mref, mhasref, mlastok, macc, mid, mlisten, mconn, msamples, myields, mdisc, mstopped,
+    /\ UNCHANGED <<mref, mhasref, mlastok, macc, mid, mlisten, mconn, msamples, mlsamples, myields, mdisc, mstopped,
                    mearly, mdrained>>
     /\ Conform(/\ acks # <<>> /\ Head(acks) = [cmd |-> Ev.cmd, id |-> Ev.id, st |-> Ev.st_ack]
                /\ D!Deliver
@@ -158,7 +158,7 @@ MData ==
            d == P!PacketClause(Ev.types, Ev.wire, mine, Ev.gots, IF mine = 0 THEN 0 ELSE Len(mref[mine]))
        IN /\ Fail(IF Ev.before # mflags THEN "FlagsChangedWithoutAck" ELSE IF d # "ok" THEN d ELSE Quiet)
           /\ mflags' = Ev.after
-          /\ UNCHANGED <<mref, mhasref, mlastok, macc, mid, mlisten, mconn, msamples, myields, mdisc, mstopped, mearly,
+          /\ UNCHANGED <<mref, mhasref, mlastok, macc, mid, mlisten, mconn, msamples, mlsamples, myields, mdisc, mstopped, mearly,
                          mdrained>>
           /\ Conform(/\ D!Data(id, SubSeq(Ev.wire, 2, 4), SubSeq(Ev.wire, 5, Len(Ev.wire)))
                      /\ obs'.types = Ev.types /\ obs'.gots = Ev.gots
@@ -172,14 +172,14 @@ MDisc ==
     /\ mdisc' = (mdisc \/ Ev.sync)
     /\ mdrained' = IF Ev.sync /\ ~mdisc THEN Ev.drained ELSE mdrained
     /\ mlisten' = IF Ev.sync THEN FALSE ELSE mlisten
-    /\ UNCHANGED <<mref, mhasref, mlastok, macc, mid, mconn, msamples, myields, mstopped, mearly>>
+    /\ UNCHANGED <<mref, mhasref, mlastok, macc, mid, mconn, msamples, mlsamples, myields, mstopped, mearly>>
     /\ Conform(D!CloseLink /\ StMatch)
 MReconnect ==
     /\ Ev.e = "reconnect"
     /\ Fail(IF Ev.before # mflags THEN "FlagsChangedWithoutAck" ELSE "ok")
     /\ macc' = [c \in Cs |-> FALSE]
     /\ mflags' = Ev.after
-    /\ UNCHANGED <<mref, mhasref, mlastok, mid, mlisten, mconn, msamples, myields, mdisc, mstopped, mearly, mdrained>>
+    /\ UNCHANGED <<mref, mhasref, mlastok, mid, mlisten, mconn, msamples, mlsamples, myields, mdisc, mstopped, mearly, mdrained>>
     /\ Conform(D!OpenLink /\ StMatch)
 
 MEnv ==
@@ -191,24 +191,26 @@ MEnv ==
 MSBegin == /\ Ev.e \in {"sbegin", "sconnected", "sfail"}
            /\ mlisten' = (Ev.e # "sfail")
            /\ mconn' = (mconn \/ Ev.e = "sconnected")
-           /\ UNCHANGED <<bad, badAt, cok, cokAt, mref, mhasref, mlastok, macc, mid, mflags, msamples, myields,
+           /\ UNCHANGED <<bad, badAt, cok, cokAt, mref, mhasref, mlastok, macc, mid, mflags, msamples, mlsamples, myields,
                           mdisc, mstopped, mearly, mdrained>>
            /\ UNCHANGED specvars
-\* data_received_cb delivered a sample of one of the SyncLogger's configurations (logged when it happens)
-MSample == /\ Ev.e = "sample"
-           /\ msamples' = IF mlisten /\ (\E j \in DOMAIN T.synccs : T.synccs[j] = Ev.s.c)
+\* "sample": data_received_cb delivered a sample of one of the SyncLogger's configurations (logged by an
+\* observer registered before the logger's callback); "lsample": the logger's own callback got it
+MSample == /\ Ev.e \in {"sample", "lsample"}
+           /\ msamples' = IF Ev.e = "sample" /\ mlisten /\ (\E j \in DOMAIN T.synccs : T.synccs[j] = Ev.s.c)
                            THEN Append(msamples, Ev.s) ELSE msamples
+           /\ mlsamples' = IF Ev.e = "lsample" THEN Append(mlsamples, Ev.s) ELSE mlsamples
            /\ UNCHANGED <<bad, badAt, cok, cokAt, mref, mhasref, mlastok, macc, mid, mflags, mlisten, mconn, myields,
                           mdisc, mstopped, mearly, mdrained>>
            /\ UNCHANGED specvars
 MYield == /\ Ev.e = "yield"
           /\ myields' = Append(myields, Ev.s)
-          /\ UNCHANGED <<bad, badAt, mref, mhasref, mlastok, macc, mid, mflags, mlisten, mconn, msamples, mdisc,
+          /\ UNCHANGED <<bad, badAt, mref, mhasref, mlastok, macc, mid, mflags, mlisten, mconn, msamples, mlsamples, mdisc,
                          mstopped, mearly, mdrained>>
           /\ Conform(D!SyncNext /\ sync'.yields = Append(sync.yields, Ev.s))
 MStop == /\ Ev.e = "sstop"
          /\ mstopped' = TRUE /\ mearly' = (mearly \/ ~mdisc)
-         /\ UNCHANGED <<bad, badAt, mref, mhasref, mlastok, macc, mid, mflags, mlisten, mconn, msamples, myields,
+         /\ UNCHANGED <<bad, badAt, mref, mhasref, mlastok, macc, mid, mflags, mlisten, mconn, msamples, mlsamples, myields,
                         mdisc, mdrained>>
          /\ Conform(D!SyncNext /\ sync'.st = "stopped")
 
@@ -219,7 +221,7 @@ Step == /\ l <= Len(T.ev)
 Finish == /\ l = Len(T.ev) + 1
           /\ l' = l + 1
           /\ LET s == IF T.sync /\ mconn
-                      THEN P!SyncClause(msamples, myields, mdisc, mstopped, mearly,
+                      THEN P!SyncClause(mlsamples, msamples, myields, mdisc, mstopped, mearly,
                                         IF mdisc THEN mdrained ELSE T.idle_end)
                       ELSE "ok"
                  b == IF bad # "ok" THEN bad ELSE s
